@@ -7,7 +7,7 @@ from ..backends.make import writer as make
 from ..backends.ninja import writer as ninja
 from ..build_inputs import build_input
 from ..file_types import Node
-from ..iterutils import first, iterate
+from ..iterutils import iterate
 from ..shell import posix as pshell
 
 
@@ -34,9 +34,10 @@ class Test:
                        if isinstance(i, Node) and i.creator]
         self.env = environment
 
-        primary = first(cmd)
-        if isinstance(primary, Node) and primary.creator:
-            context.build['defaults'].remove(primary)
+        # Everything we built for this test is handed to it, wherever it is
+        # on the command line (e.g. behind a wrapper script).
+        for i in self.inputs:
+            context.build['defaults'].remove(i)
         (driver or context.build['tests']).tests.append(self)
 
 
